@@ -5,7 +5,7 @@ from functools import partial
 
 from symx.run import Obligation
 from symx.core import isna
-from .common import classes, build_map, MapSnap, cell_same, col, SV_GAMES
+from .common import classes, build_map, MapSnap, cell_same, col, SV_GAMES, same_multiset
 
 # converter name -> (source game, target game, source is mapset, result is list|mapset|map, shift kw)
 CONVERTERS = {
@@ -161,16 +161,15 @@ def _check_lists(ctx, label, src, dst, shift, both_sv):
         ctx.check("%s.%s.len" % (label, k), len(s) == len(d), note="%d source rows -> %d" % (len(s), len(d)))
         if len(s) != len(d):
             continue
-        for f in fields:
-            if f not in d.columns:
-                continue
-            sv, dv = col(s, f), col(d, f)
-            if f == "column":
-                ok = ctx.all(*[False if isna(y) else ctx.eq(y, x + shift) for x, y in zip(sv, dv)])
-            else:
-                ok = ctx.all(*[False if isna(y) else ctx.eq(y, x) for x, y in zip(sv, dv)])
-            ctx.check("%s.%s[%s]" % (label, k, f), ok, note="source %r -> %r" % (sv[:3], dv[:3]))
-            for i, y in enumerate(dv):
+        # the objects as a multiset of rows (the property does not fix the row order of the result); per-column facets are kept
+        # as a diagnosis when the rows happen to be in the same order
+        have = [f for f in fields if f in d.columns]
+        srows = list(zip(*[[(x + shift) if f == "column" else x for x in col(s, f)] for f in have])) if have else []
+        drows = list(zip(*[col(d, f) for f in have])) if have else []
+        ctx.check("%s.%s.same-objects" % (label, k), len(have) == len(fields) and not any(isna(y) for r in drows for y in r) and same_multiset(ctx, drows, srows),
+                  note="source %r -> %r (fields %s)" % (srows[:3], drows[:3], have))
+        for f in have:
+            for i, y in enumerate(col(d, f)):
                 ctx.observe("%s.%s[%s][%d]" % (label, k, f, i), y)
 
 
